@@ -282,6 +282,8 @@ func (d dynProfile) GetClaims() psatoken.IClaims {
 		return newOwnTagClaimsNamed(d.name)
 	case "two-embedded-p2":
 		return newTwoEmbClaimsNamed(d.name)
+	case "label-then-p2":
+		return newLabelP2ClaimsNamed(d.name)
 	case "no-profile-field":
 		return &NoProfClaims{}
 	case "lookalike-keys":
@@ -301,6 +303,8 @@ func shapeType(shape string) string {
 		return "*checks.OwnTagClaims"
 	case "two-embedded-p2":
 		return "*checks.TwoEmbClaims"
+	case "label-then-p2":
+		return "*checks.LabelP2Claims"
 	case "p1":
 		return "*psatoken.P1Claims"
 	case "p2":
@@ -494,4 +498,43 @@ func (nonceP2Profile) GetClaims() psatoken.IClaims {
 		SwComponents:     &psatoken.SwComponents[*psatoken.SwComponent]{},
 		CanonicalProfile: NonceP2Name,
 	}}
+}
+
+// ---- a claims type with a JSON-only field that merely is NAMED Profile,
+// declared before the embedded claims whose profile field carries key 265:
+// the field identified by its CBOR key takes precedence ----
+
+type LabelP2Claims struct {
+	// the working claims (not walked by the embedding-aware helpers: embedded
+	// by pointer; its codec methods and getters are promoted)
+	*psatoken.P2Claims `cbor:"-" json:"-"`
+	// the two fields the registration looks at, on the same level
+	Profile    string       `json:"profile-label,omitempty"`
+	EatProfile *eat.Profile `cbor:"265,keyasint" json:"eat-profile"`
+}
+
+func newLabelP2ClaimsNamed(name string) psatoken.IClaims {
+	p := eat.Profile{}
+	if err := p.Set(name); err != nil {
+		panic(err)
+	}
+	return &LabelP2Claims{P2Claims: &psatoken.P2Claims{
+		Profile:          &p,
+		SwComponents:     &psatoken.SwComponents[*psatoken.SwComponent]{},
+		CanonicalProfile: name,
+	}}
+}
+
+// faultyFactoryProfile: a profile whose factory returns nil or panics.
+type faultyFactoryProfile struct {
+	name string
+	mode string
+}
+
+func (f faultyFactoryProfile) GetName() string { return f.name }
+func (f faultyFactoryProfile) GetClaims() psatoken.IClaims {
+	if f.mode == "panic" {
+		panic("factory not initialised")
+	}
+	return nil
 }
